@@ -38,6 +38,9 @@ class GProp(ParseProp):
             yield mk_case(ct[1], c, g=g2)
 
     def tally(self, ct, it, dist):
+        if ct[0] != 'parse-case':
+            dist['kind=' + ct[0]] = dist.get('kind=' + ct[0], 0) + 1
+            return
         c = pfields(ct)
         head = c['g'][0] if isinstance(c['g'], list) else c['g']
         dist['root=' + head] = dist.get('root=' + head, 0) + 1
